@@ -17,6 +17,8 @@ class SimClock(object):
         return self.now
 
     def sleep(self, s):
+        if s < 0:
+            raise ValueError("sleep length must be non-negative")       # as the real time.sleep()
         if s > 0:
             self.now += s
 
